@@ -246,8 +246,22 @@ DelScriptStep ==
     [] pos = 5 -> (\E ps \in DelSets : GDeleteEntries("r1", ps)) /\ pos' = 9
     [] OTHER -> FALSE
 
+\* uploads whose number of files is an exact multiple of the index-file size E (the last index file is full):
+\* the bulk filler alone (E or 2E files), or one named file plus E - 1 filler files
+ExactTree == [p \in {[p |-> "a", gen |-> FALSE]} |-> "s"]
+ExactScriptStep ==
+  CASE pos = 0 -> GCreateRepo("r1") /\ pos' = 1
+    [] pos = 1 -> GUpload("r1", << >>, E) /\ pos' = 2
+    [] pos = 2 -> GUpload("r1", ExactTree, E - 1) /\ pos' = 3
+    [] pos = 3 -> (\E k \in {E, 2 * E} : GUpload("r1", << >>, k)) /\ pos' = 9
+    [] OTHER -> FALSE
+
 GNext == /\ stage = "run"
-         /\ IF Script \in {"delfiles", "delfiles-all"}
+         /\ IF Script = "exact"
+              THEN IF pos < 9 THEN ExactScriptStep /\ UNCHANGED stage
+                   ELSE stage' = "done" /\ UNCHANGED <<mvars, hist, pos>>
+            ELSE
+            IF Script \in {"delfiles", "delfiles-all"}
               THEN IF pos < 9 THEN DelScriptStep /\ UNCHANGED stage
                    ELSE stage' = "done" /\ UNCHANGED <<mvars, hist, pos>>
             ELSE
